@@ -36,3 +36,10 @@ VARIANTS += [
     v("c19-begin-truthy", "        if begin is not None:\n            try:", "        if begin:\n            try:", note="label 0 of a numeric axis is treated as not given"),
     v("c19-end-truthy", "        if end is not None:\n            try:", "        if end:\n            try:"),
 ]
+
+# batch 10 (two cooperating sites): an axis position is never tested for truth
+VARIANTS += [
+    v("c19-position-truthy", "        for ii in range(begin_ix, 0, -1):", "        end_ix = end_ix or 1\n        for ii in range(begin_ix, 0, -1):",
+      note="position 0 (the first step) replaced by a default", names="R-TRUTHY"),
+    v("c19-position-not", "            if ii <= end_ix:", "            if not end_ix or ii <= end_ix:", names="R-TRUTHY"),
+]
